@@ -58,7 +58,9 @@ func xyzExactL(w XY, l float32) ref.V3 {
 	return ref.XYZOf(ref.XY{X: float64(w[0]), Y: float64(w[1])}, float64(l))
 }
 
-func f32(v ref.V3) ciexyz.Color { return ciexyz.Color{X: float32(v[0]), Y: float32(v[1]), Z: float32(v[2])} }
+func f32(v ref.V3) ciexyz.Color {
+	return ciexyz.Color{X: float32(v[0]), Y: float32(v[1]), Z: float32(v[2])}
+}
 func f64(c ciexyz.Color) ref.V3 { return ref.V3{float64(c.X), float64(c.Y), float64(c.Z)} }
 
 // valid: Bradford cone responses all >= 0.1 (Y = 1)
@@ -291,7 +293,7 @@ func TestC12(t *testing.T) {
 	}
 	ev.Class("cie-table-triples", int64(len(names)*len(names)*len(names)))
 	ev.Sample(map[string]any{"A": "D50 " + fmt.Sprint(table["D50"]), "B": "D65 " + fmt.Sprint(table["D65"]),
-		"library": toRef(matrix.Matrix3(ciexyz.AdaptBetweenXYYWhitePoints(xyY(table["D50"]), xyY(table["D65"])))),
+		"library":   toRef(matrix.Matrix3(ciexyz.AdaptBetweenXYYWhitePoints(xyY(table["D50"]), xyY(table["D65"])))),
 		"reference": ref.Bradford(xyzExact(table["D50"]), xyzExact(table["D65"]))})
 
 	// grid
